@@ -12,7 +12,7 @@ class operators:
             for kind in ("stream-stream", "stream-list", "list-stream", "stream-scalar", "scalar-stream", "tuple-stream", "str-stream"):
                 for la, lb in ((3, 3), (3, 1), (0, 2), (2, 4)):
                     yield {"op": op, "kind": kind, "la": la, "lb": lb}
-        for op in ("neg", "pos", "invert"):
+        for op in ("neg", "pos", "invert", "abs"):
             yield {"op": op, "kind": "unary", "la": 3, "lb": 0}
         for op in ("add", "mul", "sub", "truediv", "pow"):
             yield {"op": op, "kind": "scalar-history", "la": 3, "lb": 0}
@@ -33,6 +33,10 @@ class operators:
                     for side in ("right", "left"):
                         try:
                             exp = [f(x, c) if side == "right" else f(c, x) for x in data]
+                            if op == "pow" and side == "left" and isinstance(c, F):
+                                # Fraction.__pow__ never defers to the stream: for a non-rational exponent it computes
+                                # float(c) ** stream itself, so the stream only ever sees the float
+                                exp = [float(c) ** x for x in data]
                         except Exception:
                             continue
                         r = outcome(lambda: list(f(Stream(data), c) if side == "right" else f(c, Stream(data))))
@@ -40,6 +44,11 @@ class operators:
                             return "%s with the scalar %r (%s) on the %s after equal scalars of other types: %r, property says %r" % (op, c, type(c).__name__, side, r, exp)
             return None
         if kind == "unary":
+            if op == "abs":
+                a = [3, -5, 2, -7][:la]
+                r = outcome(lambda: list(abs(Stream(a))))
+                exp = ("ok", [abs(x) for x in a])
+                return None if r == exp else "abs(Stream(%r)) = %r, expected %r" % (a, r, exp)
             r = outcome(lambda: list(f(Stream(a))))
             exp = ("ok", [f(x) for x in a])
             return None if r == exp else "%s(Stream(%r)) = %r, expected %r" % (op, a, r, exp)
